@@ -251,6 +251,16 @@ func runC04(c *core.Ctx) {
 	c.Doc("guard-dominates", 2, "every returning path of NewLens/NewReflector passed the type guard and returns a fresh lens of its argument")
 	c.Doc("guard-strength-B", 2, "the guard is type identity between the entry's field type and the focus type")
 	guardRules(c)
+	// ... and that the lens it returns addresses the field the listing says: the offsets of the unfolding (shared with C01)
+	c.Doc("addr-term", 4, "every unsafe dereference is base + L.Offset + L.RootOffs typed *A")
+	c.Doc("addr-agree", 1, "the four accessor methods use the same address term")
+	c.Doc("put-effect", 2, "Put/Putt: exactly one store, of a, through that pointer; container returned unchanged")
+	c.Doc("get-effect", 2, "Get/Gett: no store; returns the loaded value")
+	c.Doc("offs-writers", 1, "RootOffs / StructField are written only by the unfolding function's literals")
+	c.Doc("offs-term", 3, "RootOffs := offset parameter; StructField := cat.Field(i); recursion passes offset + cat.Field(i).Offset; root call passes 0")
+	if lensAccessorRules(c) != nil {
+		offsRules(c)
+	}
 	// orComposed: the field-role form of the equation, or - for a representation it does not recognise - the same
 	// equation stated on the value the constructor builds
 	orComposed := func(ok bool, kind, method string) bool {
